@@ -33,6 +33,7 @@ type ScalarMove struct {
 var ScalarVias = []string{
 	"set", "decode", "unmarshal", "decodehex", "cselect0", "cselect1", "cselect-high", "add", "sub", "mul", "setuint64",
 	"zero", "one", "minusone", "random", "invert", "pow", "square", "set-nil", "mul-nil", "pow-nil", "decode-rejected",
+	"random-high", "random-retry",
 }
 
 // PlanScalarMove draws a transition through the given mutator.
@@ -64,7 +65,13 @@ func PlanScalarMove(via string, r *gen.Rng) ScalarMove {
 		from = new(big.Int).ModInverse(to, n)
 	case "square":
 		to = oracle.Mod(new(big.Int).Mul(from, from), n)
-	case "random":
+	case "random", "random-retry":
+		if to.Sign() == 0 {
+			to = big.NewInt(9)
+		}
+	case "random-high":
+		// the entropy source delivers to+n, an integer in [n, 2^256): Random must reduce it
+		to = oracle.Mod(to, new(big.Int).Sub(new(big.Int).Lsh(big.NewInt(1), 256), n))
 		if to.Sign() == 0 {
 			to = big.NewInt(9)
 		}
@@ -123,6 +130,21 @@ func ApplyScalarMove(s *secp256k1.Scalar, mv ScalarMove) {
 	case "random":
 		old := rand.Reader
 		rand.Reader = bytes.NewReader(oracle.Bytes32(to))
+
+		defer func() { rand.Reader = old }()
+
+		s.Random()
+	case "random-high":
+		old := rand.Reader
+		rand.Reader = bytes.NewReader(oracle.Bytes32(new(big.Int).Add(to, n)))
+
+		defer func() { rand.Reader = old }()
+
+		s.Random()
+	case "random-retry":
+		// the first draws are 0 modulo n (0, n): Random never returns zero and must draw again
+		old := rand.Reader
+		rand.Reader = bytes.NewReader(append(append(make([]byte, 32), oracle.Bytes32(n)...), oracle.Bytes32(to)...))
 
 		defer func() { rand.Reader = old }()
 
